@@ -1,4 +1,5 @@
-import PlumVerif.Proofs.Dataset
+import PlumVerif.Proofs.DatasetDecode
+import PlumVerif.Props.C05Params
 /-
 C07 — a write targets exactly the controller slot the parameter was read from.
 
@@ -50,6 +51,17 @@ theorem schedule_names : ∀ i < Gen.scheduleParams.length,
       Gen.schedules[i / 2]?.map (· ++ if i % 2 = 0 then suffixSwitch else suffixParameter) := by
   decide +kernel
 
+/-- **schedule_split_agrees**: every schedule-parameter name splits back (`split("_schedule_", 1)[0]`,
+then `SCHEDULES.index`) to its own schedule: position `i` of the parameter table belongs to schedule `i / 2` -/
+theorem schedule_split_agrees : ∀ i < Gen.scheduleParams.length,
+    (Gen.scheduleParams[i]?.bind (fun d => scheduleIndex d.name)) = some (i / 2) := by decide +kernel
+
+theorem scheduleIndex_of_row {i : Nat} {d : Gen.Desc} (h : Gen.scheduleParams[i]? = some d) :
+    scheduleIndex d.name = some (i / 2) := by
+  have := schedule_split_agrees i (List.getElem?_eq_some_iff.mp h).1
+  rw [h] at this
+  simpa using this
+
 theorem schedule_table_length : Gen.scheduleParams.length = 2 * Gen.schedules.length := by decide
 
 /-! ### index preserved, for every history of responses and sets -/
@@ -78,15 +90,15 @@ theorem update_keeps_index {old ds : DS} {new e : Entry} (hf : find old new.name
 
 /-- ecoMAX: a position beyond the table is skipped; the rest of the response is processed as if
 it were not there (fix a46bd66) -/
-theorem unknown_inert_ecomax (pt : Product) (old ds : DS) (pos : Nat) (t : Triple) (rest : List (Nat × Triple))
+theorem unknown_inert_ecomax (pt : Product) (old ds : DS) (pos : Nat) (t : P2.Triple) (rest : P2.Params)
     (h : (tableOf pt .ecomax).length ≤ pos) :
     applyEcomaxItems pt old ds ((pos, t) :: rest) = applyEcomaxItems pt old ds rest := by
   have : (tableOf pt .ecomax)[pos]? = none := List.getElem?_eq_none h
-  simp [applyEcomaxItems, this]
+  simp [applyEcomaxItems, applyItems, this]
 
 /-- ecoMAX: a response consisting of unknown positions only changes nothing -/
 theorem unknown_inert_ecomax_all (pt : Product) (old : DS) :
-    ∀ (items : List (Nat × Triple)) (ds : DS), (∀ it ∈ items, (tableOf pt .ecomax).length ≤ it.1) →
+    ∀ (items : P2.Params) (ds : DS), (∀ it ∈ items, (tableOf pt .ecomax).length ≤ it.1) →
       applyEcomaxItems pt old ds items = ds := by
   intro items
   induction items with
@@ -98,51 +110,46 @@ theorem unknown_inert_ecomax_all (pt : Product) (old : DS) :
     exact ih ds (fun it hit => h it (by simp [hit]))
 
 /-- mixer: the first position beyond the table ends the processing of that mixer's block -/
-theorem unknown_inert_mixer (pt : Product) (m : Nat) (old ds : DS) (pos : Nat) (t : Triple)
-    (rest : List (Nat × Triple)) (h : (tableOf pt .mixer).length ≤ pos) :
+theorem unknown_inert_mixer (pt : Product) (m : Nat) (old ds : DS) (pos : Nat) (t : P2.Triple)
+    (rest : P2.Params) (h : (tableOf pt .mixer).length ≤ pos) :
     applyMixerItems pt m old ds ((pos, t) :: rest) = ds := by
   have : (tableOf pt .mixer)[pos]? = none := List.getElem?_eq_none h
-  simp [applyMixerItems, this]
-
-theorem decodeTBlock_unknown (msg : List Byte) (tbl : List Gen.Desc) :
-    ∀ (n off pos : Nat), 0 < n → tbl.length < pos + n → decodeTBlock msg tbl off pos n = none := by
-  intro n
-  induction n with
-  | zero => intro off pos h0 h; omega
-  | succ n ih =>
-    intro off pos _ h
-    unfold decodeTBlock
-    split
-    · rfl
-    · next d hd =>
-      have hp : pos < tbl.length := (List.getElem?_eq_some_iff.mp hd).1
-      rw [ih _ (pos + 1) (by omega) (by omega)]
+  simp [applyMixerItems, applyItems, this]
 
 /-- thermostat: a response whose per-thermostat range reaches a position beyond the table cannot be
 decoded at all: the world is unchanged (no parameter created, overwritten or re-indexed) -/
-theorem unknown_inert_thermostat (pt : Product) (w : World) (msg : List Byte) (start count : Byte)
-    (h1 : msg[1]? = some start) (h2 : msg[2]? = some count)
+theorem unknown_inert_thermostat (pt : Product) (w : World) (b0 start count : Byte) (r : List Byte)
+    (hT : w.tAvail ≠ 0)
     (hsome : 0 < slotsPer start.toNat count.toNat w.tAvail)
     (hbeyond : Gen.thermostat.length < start.toNat + slotsPer start.toNat count.toNat w.tAvail) :
-    (step pt w (.thermostatParams msg)).1 = w := by
-  simp only [step]
-  split
-  · rfl
-  · next hT =>
-    have hdec : decodeThermostats msg w.tAvail = none := by
-      unfold decodeThermostats
-      simp only [h1, h2, Option.bind_eq_bind, Option.bind_some]
-      obtain ⟨T, hT'⟩ : ∃ T, w.tAvail = T + 1 := ⟨w.tAvail - 1, by omega⟩
-      rw [hT']
-      unfold decodeTBlocks
-      rw [decodeTBlock_unknown _ _ _ _ _ (by rw [← hT']; exact hsome) (by rw [← hT']; exact hbeyond)]
-      rfl
-    rw [hdec]
+    (step pt w (.thermostatParams (b0 :: start :: count :: r))).1 = w := by
+  obtain ⟨T, hT'⟩ : ∃ T, w.tAvail = T + 1 := ⟨w.tAvail - 1, by omega⟩
+  have hsz : ∀ i, Gen.thermostat.length ≤ i → P2.thermoSize i = none := by
+    intro i hi; simp [P2.thermoSize, List.getElem?_eq_none hi]
+  obtain ⟨e, he⟩ := decodeRun_unknown P2.thermoSize _ hsz _ start.toNat (r.drop 3) hsome hbeyond
+  have hdec : ∃ e, P2.decodeThermo (some w.tAvail) (b0 :: start :: count :: r) = .error e := by
+    rw [hT']
+    simp only [P2.decodeThermo]
+    rw [← hT']
+    rw [show P2.decodeBlocks P2.thermoSize start.toNat (P2.thermoPer start.toNat count.toNat w.tAvail) w.tAvail 0
+          (r.drop 3) = .error e by
+      rw [hT']; unfold P2.decodeBlocks; rw [← hT']; simp only [slotsPer] at he; rw [he]]
+    exact ⟨_, rfl⟩
+  obtain ⟨e', he'⟩ := hdec
+  simp only [step, he']
+
+/-- non-vacuity of `unknown_inert_thermostat`: one thermostat, a response announcing one position
+more than the table has -/
+example : (step .P { tAvail := 1 } (.thermostatParams [0, 0, (Gen.thermostat.length + 1).toUInt8])).1.thermostats = [] ∧
+    0 < slotsPer 0 (Gen.thermostat.length + 1).toUInt8.toNat 1 ∧
+    Gen.thermostat.length < 0 + slotsPer 0 (Gen.thermostat.length + 1).toUInt8.toNat 1 := by
+  refine ⟨?_, by decide, by decide⟩
+  rw [unknown_inert_thermostat .P { tAvail := 1 } 0 0 (Gen.thermostat.length + 1).toUInt8 [] (by decide) (by decide) (by decide)]
 
 /-- schedule: a response containing an index without description dispatches nothing — every
 parameter afterwards is a parameter that existed before, with at most its triple changed: nothing is
 created and nothing is re-indexed -/
-theorem unknown_inert_schedule (old : DS) (items : List (Nat × Triple))
+theorem unknown_inert_schedule (old : DS) (items : P2.Params)
     (h : allKnown Gen.scheduleParams items = false) :
     ∀ e ∈ applyScheduleItems old items old, ∃ e0 ∈ old, e = { e0 with triple := e.triple } := by
   unfold applyScheduleItems
@@ -172,12 +179,12 @@ theorem holds_cases {pt : Product} {w : World} (hw : WorldOK pt w) {dev : Dev} {
     subst hds
     exact hw.eco e he
   | mixer i =>
-    simp only [World.ds, Option.map_eq_some_iff] at hds
+    simp only [World.ds, lookupDev, Option.map_eq_some_iff] at hds
     obtain ⟨p, hp, rfl⟩ := hds
     have hpi : p.1 = i := by simpa using List.find?_some hp
     exact hpi ▸ hw.mix p (List.mem_of_find?_eq_some hp) e he
   | thermostat i =>
-    simp only [World.ds, Option.map_eq_some_iff] at hds
+    simp only [World.ds, lookupDev, Option.map_eq_some_iff] at hds
     obtain ⟨p, hp, rfl⟩ := hds
     have hpi : p.1 = i := by simpa using List.find?_some hp
     exact hpi ▸ hw.thr p (List.mem_of_find?_eq_some hp) e he
@@ -274,233 +281,801 @@ theorem request_addresses (pt : Product) (evs : List Event) {dev : Dev} {e : Ent
     have hlt := (List.getElem?_eq_some_iff.mp hd).1
     have hsn := schedule_names e.index hlt
     rw [hd] at hsn
-    simp only [requestOf, hk] at hr
+    have hsi : scheduleIndex e.name = some (e.index / 2) := by rw [← hname]; exact scheduleIndex_of_row hd
+    simp only [requestOf, hk, hsi] at hr
     split at hr
     · cases hr
     · next sname hs =>
       rw [hs] at hsn
       simp only [Option.map_some, Option.some.injEq] at hsn
       split at hr
-      · next sw par _ bits _ _ _ =>
+      · next sw par _ days _ _ _ =>
         split at hr
         · simp only [Option.some.injEq] at hr
-          exact ⟨sname, sw.triple.value, par.triple.value, bits.map (·.toNat), hs, by rw [← hname, hsn], hr.symm⟩
+          exact ⟨sname, sw.triple.value, par.triple.value, (days.flatMap (P2.packBits 6)).map (·.toNat), hs,
+            by rw [← hname, hsn], hr.symm⟩
         · cases hr
       · cases hr
 
 example : (run .P {} [.mixerParams [0, 0, 2, 2, 1, 0, 9, 2, 0, 9, 3, 0, 9, 4, 0, 9],
       .set (.mixer 1) ((Gen.mixerP[1]?.map (·.name)).getD "") 5]).2 = [.req ⟨.setMixer, [1, 1, 5]⟩] := by decide +kernel
 
-/-! ### read slot = write slot, end to end for the ecoMAX block -/
+/-! ### read slot = write slot, for every parameter family
 
-theorem decodeBlock_pos (msg : List Byte) :
-    ∀ (n off pos : Nat), ∀ it ∈ decodeBlock msg off pos n, pos ≤ it.1 ∧ it.1 < pos + n := by
-  intro n
-  induction n with
-  | zero => intro off pos it h; simp [decodeBlock] at h
-  | succ n ih =>
-    intro off pos it h
-    unfold decodeBlock at h
-    rcases List.mem_append.mp h with h | h
-    · split at h
-      · simp only [List.mem_singleton] at h; subst h; simp
-      · cases h
-    · have := ih _ _ it h; omega
+The decoders are C05's (`P2.decodeEcomax`, `decodeMixer`, `decodeThermo`, `decodeSched`): what they
+return is what the dataset model consumes. -/
 
-theorem find_applyEcomax_other (pt : Product) (old : DS) (n : String) :
-    ∀ (items : List (Nat × Triple)) (ds : DS),
-      (∀ it ∈ items, ∀ d, (tableOf pt .ecomax)[it.1]? = some d → d.name ≠ n) →
-      find (applyEcomaxItems pt old ds items) n = find ds n := by
-  intro items
-  induction items with
-  | nil => intro ds _; rfl
-  | cons it rest ih =>
-    intro ds h
-    obtain ⟨pos, t⟩ := it
-    unfold applyEcomaxItems
+/-- what `upsert` stores for a described position of family `k`: name, family, index and triple are
+those of the position, whether an existing parameter was updated or a new one created -/
+theorem upsertResult_slot (pt : Product) (k : TKind) {old : DS} {d : Gen.Desc} {pos : Nat} {new : Entry}
+    (hn : new.name = d.name) (hk : new.kind = k) (hi : new.index = pos)
+    (hd : (tableOf pt k)[pos]? = some d) (hok : ∀ e ∈ old, EntryOK pt e)
+    (hsep : ∀ e ∈ old, e.name = d.name → sameClass e new = true → e.kind = k) :
+    (upsertResult old new).name = d.name ∧ (upsertResult old new).kind = k ∧
+    (upsertResult old new).index = pos ∧ (upsertResult old new).triple = new.triple ∧
+    ((upsertResult old new) = new ∨ ∃ e0 ∈ old, upsertResult old new = { e0 with triple := new.triple }) := by
+  unfold upsertResult
+  cases hf : find old new.name with
+  | none => exact ⟨hn, hk, hi, rfl, .inl rfl⟩
+  | some e0 =>
+    simp only []
     split
-    · exact ih ds (fun it hit => h it (by simp [hit]))
-    · next d hd =>
-      rw [ih _ (fun it hit => h it (by simp [hit])), upsert_eq, find_setEntry_ne]
-      rw [upsertResult_name]
-      exact h (pos, t) (by simp) d hd
+    · next hc =>
+      obtain ⟨hm0, hn0⟩ := find_some hf
+      have hname : e0.name = d.name := hn0.trans hn
+      have hkind : e0.kind = k := hsep e0 hm0 hname hc
+      obtain ⟨d0, hd0, hdn0, _, _⟩ := hok e0 hm0
+      rw [hkind] at hd0
+      have hidx : e0.index = pos := name_index_bijection pt k hd0 hd (by rw [hdn0, hname])
+      exact ⟨hname, hkind, hidx, rfl, .inr ⟨e0, hm0, rfl⟩⟩
+    · exact ⟨hn, hk, hi, rfl, .inl rfl⟩
 
-theorem read_slot_block (pt : Product) (old : DS) (msg : List Byte) :
-    ∀ (n off pos0 : Nat) (ds : DS) (pos : Nat) (t : Triple), (pos, t) ∈ decodeBlock msg off pos0 n →
-      ∀ d, (tableOf pt .ecomax)[pos]? = some d →
-      find (applyEcomaxItems pt old ds (decodeBlock msg off pos0 n)) d.name =
-        some (upsertResult old (newEntry .ecomax d pos t 0 0)) := by
-  intro n
-  induction n with
-  | zero => intro off pos0 ds pos t h; simp [decodeBlock] at h
-  | succ n ih =>
-    intro off pos0 ds pos t h d hd
-    unfold decodeBlock at h ⊢
-    cases hu : unpack msg off 1 with
-    | none =>
-      simp only [hu, List.nil_append] at h ⊢
-      exact ih _ _ ds pos t h d hd
-    | some t0 =>
-      simp only [hu, List.singleton_append, List.mem_cons] at h ⊢
-      unfold applyEcomaxItems
-      rcases h with h | h
-      · obtain ⟨rfl, rfl⟩ := Prod.mk.inj h
-        simp only [hd]
-        rw [find_applyEcomax_other, upsert_eq]
-        · have := find_setEntry_self ds (upsertResult old (newEntry .ecomax d pos t 0 0))
-          rwa [upsertResult_name] at this
-        · intro it hit d' hd' heq
-          have := (decodeBlock_pos msg _ _ _ it hit).1
-          have := name_index_bijection pt .ecomax hd' hd heq
-          omega
-      · split
-        · exact ih _ _ ds pos t h d hd
-        · exact ih _ _ _ pos t h d hd
+theorem decodeEcomax_sorted {msg : List Byte} {items : P2.Params} {rest : List Byte}
+    (h : P2.decodeEcomax msg = .ok (items, rest)) : items.Pairwise (fun a b => a.1 < b.1) := by
+  unfold P2.decodeEcomax at h
+  split at h
+  · exact (decodeRun_facts _ _ _ _ _ _ h).2.1
+  · cases h
 
 /-- **read slot = write slot (ecoMAX)**: after an ecoMAX parameters response arrives in any
-reachable world, the triple decoded from the slot of a described position `pos` is held under the
-name of that position's description, by a parameter whose recorded index is `pos` — whether the
-parameter was created by this response or updated (create then update).  Uses `names_unique`,
-`reserved_names` and the world invariant. -/
+reachable world, the triple the decoder reports for a described position `pos` is held under the
+name of that position's description, by a parameter whose recorded index is `pos` — created by this
+response or updated (create then update).  Uses `names_unique`, `reserved_names`, the invariant. -/
 theorem read_slot_ecomax (pt : Product) (w : World) (hw : WorldOK pt w) (msg : List Byte)
-    (items : List (Nat × Triple)) (hdec : decodeEcomax msg = some items)
-    (pos : Nat) (t : Triple) (hmem : (pos, t) ∈ items) (d : Gen.Desc)
+    (items : P2.Params) (rest : List Byte) (hdec : P2.decodeEcomax msg = .ok (items, rest))
+    (pos : Nat) (t : P2.Triple) (hmem : (pos, t) ∈ items) (d : Gen.Desc)
     (hd : (tableOf pt .ecomax)[pos]? = some d) :
     ∃ e, find (step pt w (.ecomaxParams msg)).1.ecomax d.name = some e ∧
-      e.index = pos ∧ e.triple = t ∧ e.kind = .ecomax ∧ e.name = d.name := by
-  have hdec' := hdec
-  unfold decodeEcomax at hdec'
-  cases h1 : msg[1]? with
-  | none => simp [h1] at hdec'
-  | some start =>
-    cases h2 : msg[2]? with
-    | none => simp [h1, h2] at hdec'
-    | some count =>
-      simp only [h1, h2, Option.bind_eq_bind, Option.bind_some, Option.pure_def, Option.some.injEq] at hdec'
-      subst hdec'
-      simp only [step, hdec]
-      rw [read_slot_block pt w.ecomax msg _ _ _ _ pos t hmem d hd]
-      refine ⟨_, rfl, ?_⟩
-      unfold upsertResult
-      cases hf : find w.ecomax (newEntry .ecomax d pos t 0 0).name with
-      | none => simp [newEntry]
-      | some e0 =>
-        simp only []
-        split
-        · next hc =>
-          obtain ⟨hm0, hn0⟩ := find_some hf
-          obtain ⟨⟨d0, hd0, hdn0, _, _⟩, hon⟩ := hw.eco e0 hm0
-          have hn0' : e0.name = d.name := hn0
-          have hdmem : d ∈ Gen.ecomaxP ++ Gen.ecomaxI := by
-            have := List.mem_of_getElem? hd
-            cases pt <;> simp only [tableOf] at this <;> simp [this]
-          have hres := reserved_names d hdmem
-          have hk : e0.kind = .ecomax := by
-            simp only [sameClass, newEntry, Bool.and_eq_true, beq_iff_eq] at hc
-            cases hk : e0.kind with
-            | ecomax => rfl
-            | mixer => rw [hk] at hc; exact absurd hc.1 (by decide)
-            | thermostat => rw [hk] at hc; exact absurd hc.1 (by decide)
-            | schedule => rw [hk] at hc; exact absurd hc.1 (by decide)
-            | control =>
-              rw [hk] at hd0
-              simp only [tableOf] at hd0
-              have : d0 = Gen.ecomaxControl := by
-                have := List.mem_of_getElem? hd0
-                simpa using this
-              exact absurd (by rw [← hn0', ← hdn0, this]) hres.1
-            | profile =>
-              rw [hk] at hd0
-              simp only [tableOf] at hd0
-              have : d0 = Gen.thermostatProfile := by
-                have := List.mem_of_getElem? hd0
-                simpa using this
-              exact absurd (by rw [← hn0', ← hdn0, this]) hres.2
-          rw [hk] at hd0
-          have hidx : e0.index = pos := name_index_bijection pt .ecomax hd0 hd (by rw [hdn0, hn0'])
-          exact ⟨hidx, rfl, hk, hn0'⟩
-        · simp [newEntry]
+      e.index = pos ∧ e.triple = tr t ∧ e.kind = .ecomax ∧ e.name = d.name := by
+  simp only [step, hdec, applyEcomaxItems]
+  rw [read_slot_items (fun _ _ _ => rfl) (fun i j a b => name_index_bijection pt .ecomax) w.ecomax items w.ecomax
+    (decodeEcomax_sorted hdec) pos t hmem d hd]
+  have hdmem : d ∈ Gen.ecomaxP ++ Gen.ecomaxI := by
+    have := List.mem_of_getElem? hd
+    cases pt <;> simp only [tableOf] at this <;> simp [this]
+  have hres := reserved_names d hdmem
+  obtain ⟨h1, h2, h3, h4, _⟩ := upsertResult_slot pt .ecomax (new := mkEcomax d pos t) rfl rfl rfl hd
+    (fun e he => (hw.eco e he).1) (by
+      intro e0 hm0 hn0 hc
+      obtain ⟨⟨d0, hd0, hdn0, _, _⟩, _⟩ := hw.eco e0 hm0
+      simp only [sameClass, mkEcomax, newEntry, Bool.and_eq_true, beq_iff_eq] at hc
+      cases hk : e0.kind with
+      | ecomax => rfl
+      | mixer => rw [hk] at hc; exact absurd hc.1 (by decide)
+      | thermostat => rw [hk] at hc; exact absurd hc.1 (by decide)
+      | schedule => rw [hk] at hc; exact absurd hc.1 (by decide)
+      | control =>
+        rw [hk] at hd0
+        simp only [tableOf] at hd0
+        have : d0 = Gen.ecomaxControl := by simpa using List.mem_of_getElem? hd0
+        exact absurd (by rw [← hn0, ← hdn0, this]) hres.1
+      | profile =>
+        rw [hk] at hd0
+        simp only [tableOf] at hd0
+        have : d0 = Gen.thermostatProfile := by simpa using List.mem_of_getElem? hd0
+        exact absurd (by rw [← hn0, ← hdn0, this]) hres.2)
+  exact ⟨_, rfl, h3, h4, h2, h1⟩
+
+/-- entries of an existing (or not yet existing) sub-device dataset -/
+theorem lookup_getD_facts {Q : Nat → Entry → Prop} {l : List (Nat × DS)} (h : ∀ p ∈ l, ∀ e ∈ p.2, Q p.1 e) (i : Nat) :
+    ∀ e ∈ (lookupDev l i).getD [], Q i e := by
+  unfold lookupDev
+  cases hf : l.find? (fun p => p.1 == i) with
+  | none => intro e he; cases he
+  | some p =>
+    have hpi : p.1 = i := by simpa using List.find?_some hf
+    intro e he
+    exact hpi ▸ h p (List.mem_of_find?_eq_some hf) e he
+
+theorem decodeMixer_facts {msg : List Byte} {blocks : P2.Blocks} {rest : List Byte}
+    (h : P2.decodeMixer msg = .ok (blocks, rest)) :
+    (∀ b ∈ blocks, 0 ≤ b.1 ∧ True ∧ True ∧ b.2.Pairwise (fun a b => a.1 < b.1) ∧ True ∧ b.2 ≠ []) ∧
+      blocks.Pairwise (fun a b => a.1 < b.1) := by
+  unfold P2.decodeMixer at h
+  split at h
+  · obtain ⟨hall, hs⟩ := decodeBlocks_facts _ _ _ _ _ _ _ _ h
+    exact ⟨fun b hb => by obtain ⟨_, _, _, h4, _, h6⟩ := hall b hb; exact ⟨by omega, trivial, trivial, h4, trivial, h6⟩, hs⟩
+  · cases h
+
+/-- **read slot = write slot (mixer)**: the triple the decoder reports for position `pos` of mixer
+`m`'s block is held by mixer `m`'s dataset under the name of that position's description, with
+index `pos`, owner `m` — created or updated. -/
+theorem read_slot_mixer (pt : Product) (w : World) (hw : WorldOK pt w) (msg : List Byte)
+    (blocks : P2.Blocks) (rest : List Byte) (hdec : P2.decodeMixer msg = .ok (blocks, rest))
+    (m : Nat) (items : P2.Params) (hb : (m, items) ∈ blocks)
+    (pos : Nat) (t : P2.Triple) (hmem : (pos, t) ∈ items) (d : Gen.Desc)
+    (hd : (tableOf pt .mixer)[pos]? = some d) :
+    ∃ ds e, lookupDev (step pt w (.mixerParams msg)).1.mixers m = some ds ∧ find ds d.name = some e ∧
+      e.index = pos ∧ e.triple = tr t ∧ e.kind = .mixer ∧ e.devIndex = m ∧ e.name = d.name := by
+  obtain ⟨hall, hsorted⟩ := decodeMixer_facts hdec
+  obtain ⟨_, _, _, hitems, _, _⟩ := hall (m, items) hb
+  have hold := lookup_getD_facts (Q := fun i e => EntryOK pt e ∧ OnMixer i e) hw.mix m
+  have hfind := read_slot_items (skip := false) (mk := mkMixer m) (fun _ _ _ => rfl)
+    (fun i j a b => name_index_bijection pt .mixer) ((lookupDev w.mixers m).getD []) items
+    ((lookupDev w.mixers m).getD []) hitems pos t hmem d hd
+  obtain ⟨h1, h2, h3, h4, h5⟩ := upsertResult_slot pt .mixer (new := mkMixer m d pos t) rfl rfl rfl hd
+    (fun e he => (hold e he).1) (fun e he _ _ => (hold e he).2.1)
+  refine ⟨mixerBlock pt m items ((lookupDev w.mixers m).getD []), _, ?_, hfind, h3, h4, h2, ?_, h1⟩
+  · simp only [step, hdec, applyMixers]
+    exact lookupDev_applyBlocks _ blocks w.mixers hsorted m items hb
+  · rcases h5 with h5 | ⟨e0, he0, h5⟩
+    · rw [h5]; rfl
+    · rw [h5]; exact (hold e0 he0).2.2.1
+
+theorem decodeThermo_blocks {T : Nat} {msg : List Byte} {profile : Option P2.Triple} {blocks : P2.Blocks}
+    {rest : List Byte} (h : P2.decodeThermo (some T) msg = .ok (.val profile blocks, rest)) :
+    ∃ start n r, P2.decodeBlocks P2.thermoSize start n T 0 r = .ok (blocks, rest) := by
+  unfold P2.decodeThermo at h
+  split at h
+  · simp at h
+  · split at h
+    · next s c r =>
+      simp only at h
+      split at h
+      · cases h
+      · next bs r' hb =>
+        simp only [Except.ok.injEq, Prod.mk.injEq, P2.ThermoVal.val.injEq] at h
+        obtain ⟨⟨_, rfl⟩, rfl⟩ := h
+        exact ⟨_, _, _, hb⟩
+    · cases h
+
+/-- **read slot = write slot (thermostat)**: the triple the decoder reports for position `pos` of
+thermostat `t`'s block is held by thermostat `t`'s dataset under the name of that position's
+description, with index `pos` and owner `t` — unconditionally.  The OFFSET of a parameter created by
+this response is `t × (number of defined parameters of the block)`, which is `t × slots per
+thermostat` only without undefined holes (F3, `thermostat_offset_partial`); an updated parameter
+keeps the offset it had. -/
+theorem read_slot_thermostat (pt : Product) (w : World) (hw : WorldOK pt w) (msg : List Byte)
+    (profile : Option P2.Triple) (blocks : P2.Blocks) (rest : List Byte)
+    (hdec : P2.decodeThermo (some w.tAvail) msg = .ok (.val profile blocks, rest))
+    (t : Nat) (items : P2.Params) (hb : (t, items) ∈ blocks)
+    (pos : Nat) (tr' : P2.Triple) (hmem : (pos, tr') ∈ items) (d : Gen.Desc)
+    (hd : Gen.thermostat[pos]? = some d) :
+    ∃ ds e, lookupDev (step pt w (.thermostatParams msg)).1.thermostats t = some ds ∧ find ds d.name = some e ∧
+      e.index = pos ∧ e.triple = tr tr' ∧ e.kind = .thermostat ∧ e.devIndex = t ∧ e.name = d.name ∧
+      (e.offset = t * items.length ∨
+        ∃ e0 ∈ (lookupDev w.thermostats t).getD [], e0.name = d.name ∧ e.offset = e0.offset) := by
+  obtain ⟨start, n, r, hblocks⟩ := decodeThermo_blocks hdec
+  obtain ⟨hall, hsorted⟩ := decodeBlocks_facts _ _ _ _ _ _ _ _ hblocks
+  obtain ⟨_, _, _, hitems, _, _⟩ := hall (t, items) hb
+  have hold := lookup_getD_facts (Q := fun i e => EntryOK pt e ∧ OnThermostat i e) hw.thr t
+  have hd' : (tableOf pt .thermostat)[pos]? = some d := hd
+  have hfind := read_slot_items (skip := false) (mk := mkThermostat t items.length) (fun _ _ _ => rfl)
+    (fun i j a b => name_index_bijection pt .thermostat) ((lookupDev w.thermostats t).getD []) items
+    ((lookupDev w.thermostats t).getD []) hitems pos tr' hmem d hd
+  obtain ⟨h1, h2, h3, h4, h5⟩ := upsertResult_slot pt .thermostat (new := mkThermostat t items.length d pos tr') rfl rfl rfl hd'
+    (fun e he => (hold e he).1) (fun e he _ _ => (hold e he).2.1)
+  refine ⟨thermostatBlock t items ((lookupDev w.thermostats t).getD []), _, ?_, hfind, h3, h4, h2, ?_, h1, ?_⟩
+  · simp only [step, hdec, applyThermostats]
+    exact lookupDev_applyBlocks _ blocks w.thermostats hsorted t items hb
+  · rcases h5 with h5 | ⟨e0, he0, h5⟩
+    · rw [h5]; rfl
+    · rw [h5]; exact (hold e0 he0).2.2
+  · rcases h5 with h5 | ⟨e0, he0, h5⟩
+    · left; rw [h5]; rfl
+    · right
+      refine ⟨e0, he0, ?_, by rw [h5]⟩
+      have : (upsertResult ((lookupDev w.thermostats t).getD []) (mkThermostat t items.length d pos tr')).name = e0.name := by
+        rw [h5]
+      rw [← this, h1]
+
+/-- **read slot = write slot (schedule)**: when every entry of a schedules response has a
+description and the entries name distinct schedules, the switch value (position `2s`) and the
+parameter triple (position `2s+1`) of schedule `s` are held under `<schedule s>_schedule_switch` /
+`_schedule_parameter` with exactly those indexes — created or updated. -/
+theorem read_slot_schedule (pt : Product) (w : World) (hw : WorldOK pt w) (msg : List Byte)
+    (ss : List (Nat × List (List Bool))) (ps : P2.Params) (rest : List Byte)
+    (hdec : P2.decodeSched msg = .ok (.val ss ps, rest))
+    (hknown : allKnown Gen.scheduleParams ps = true) (hdist : ps.Pairwise (fun a b => a.1 ≠ b.1))
+    (pos : Nat) (t : P2.Triple) (hmem : (pos, t) ∈ ps) (d : Gen.Desc)
+    (hd : Gen.scheduleParams[pos]? = some d) :
+    ∃ e, find (step pt w (.schedules msg)).1.ecomax d.name = some e ∧
+      e.index = pos ∧ e.triple = tr t ∧ e.kind = .schedule ∧ e.name = d.name := by
+  have hd' : (tableOf pt .schedule)[pos]? = some d := hd
+  simp only [step, hdec, applyScheduleItems, hknown, if_true]
+  rw [read_slot_items_distinct (tbl := Gen.scheduleParams) (mk := mkSchedule) (fun _ _ _ => rfl)
+    (fun i j a b => name_index_bijection pt .schedule) w.ecomax ps w.ecomax hdist pos t hmem d hd]
+  obtain ⟨h1, h2, h3, h4, _⟩ := upsertResult_slot pt .schedule (new := mkSchedule d pos t) rfl rfl rfl hd'
+    (fun e he => (hw.eco e he).1) (by
+      intro e0 _ _ hc
+      simp only [sameClass, mkSchedule, newEntry, Bool.and_eq_true, beq_iff_eq] at hc
+      cases hk : e0.kind <;> rw [hk] at hc <;> first | rfl | exact absurd hc.1 (by decide))
+  exact ⟨_, rfl, h3, h4, h2, h1⟩
 
 /-! ### thermostat offsets (open finding F3) -/
 
-/-- a thermostat's block never yields more items than it has slots; it yields exactly `per` items
-iff none of its `per` slots is an undefined hole -/
-theorem block_items_le (msg : List Byte) (tbl : List Gen.Desc) :
-    ∀ (n off pos : Nat) (items : List (Nat × Triple)) (o : Nat),
-      decodeTBlock msg tbl off pos n = some (items, o) → items.length ≤ n := by
-  intro n
-  induction n with
-  | zero => intro off pos items o h; simp [decodeTBlock] at h; simp [h.1.symm]
-  | succ n ih =>
-    intro off pos items o h
-    unfold decodeTBlock at h
+/-- a thermostat's block never yields more items than the response has slots per thermostat,
+`slotsPer start count T`; it yields exactly that many iff none of its slots is an undefined hole -/
+theorem block_items_le {T : Nat} {b0 start count : Byte} {r : List Byte} {profile : Option P2.Triple}
+    {blocks : P2.Blocks} {rest : List Byte}
+    (h : P2.decodeThermo (some T) (b0 :: start :: count :: r) = .ok (.val profile blocks, rest)) :
+    ∀ b ∈ blocks, b.2.length ≤ slotsPer start.toNat count.toNat T := by
+  unfold P2.decodeThermo at h
+  split at h
+  · simp at h
+  · simp only at h
     split at h
     · cases h
-    · next d _ =>
-      split at h
-      · cases h
-      · next rest o' hrec =>
-        simp only [Option.some.injEq, Prod.mk.injEq] at h
-        have := ih _ _ _ _ hrec
-        rw [← h.1]
-        split <;> simp <;> omega
+    · next bs r' hb =>
+      simp only [Except.ok.injEq, Prod.mk.injEq, P2.ThermoVal.val.injEq] at h
+      obtain ⟨⟨_, rfl⟩, _⟩ := h
+      exact fun b hb' => ((decodeBlocks_facts _ _ _ _ _ _ _ _ hb).1 b hb').2.2.2.2.1
 
-theorem applyThermostats_offsets {per : Nat} :
-    ∀ (blocks : List (Nat × List (Nat × Triple))) (ths : List (Nat × DS)),
-      (∀ p ∈ ths, ∀ e ∈ p.2, e.offset = p.1 * per) → (∀ b ∈ blocks, b.2.length = per) →
-      ∀ p ∈ applyThermostats ths blocks, ∀ e ∈ p.2, e.offset = p.1 * per := by
-  intro blocks
-  induction blocks with
-  | nil => intro ths h _; exact h
+theorem applyThermostats_offsets {per : Nat} (blocks : P2.Blocks) (ths : List (Nat × DS))
+    (h : ∀ p ∈ ths, ∀ e ∈ p.2, e.offset = p.1 * per) (hb : ∀ b ∈ blocks, b.2.length = per) :
+    ∀ p ∈ applyThermostats ths blocks, ∀ e ∈ p.2, e.offset = p.1 * per := by
+  unfold applyThermostats
+  induction blocks generalizing ths with
+  | nil => exact h
   | cons b rest ih =>
-    intro ths h hb
     obtain ⟨t, items⟩ := b
-    unfold applyThermostats
+    unfold applyBlocks
     apply ih _ _ (fun b hb' => hb b (by simp [hb']))
     apply updDev_inv (Q := fun i ds => ∀ e ∈ ds, e.offset = i * per) h
     · intro ds hds
       have hlen : items.length = per := hb (t, items) (by simp)
-      exact applyThermostatItems_inv (P := fun e => e.offset = t * per) (fun e t h => h)
-        (fun d pos tr _ => by simp [newEntry, hlen]) hds items ds hds
+      exact applyItems_inv (P := fun e => e.offset = t * per) (fun e t h => h)
+        (fun d pos tr _ => by simp [mkThermostat, newEntry, hlen]) hds items ds hds
     · intro e he; cases he
 
 /-- the full statement: every thermostat parameter's offset is its thermostat's index times the
 number of slots per thermostat -/
 def thermostat_offset_full : Prop :=
-  ∀ (pt : Product) (T : Nat) (msg : List Byte) (start count : Byte),
-    msg[1]? = some start → msg[2]? = some count →
-    ∀ p ∈ (step pt { tAvail := T } (.thermostatParams msg)).1.thermostats, ∀ e ∈ p.2,
+  ∀ (pt : Product) (T : Nat) (b0 start count : Byte) (r : List Byte),
+    ∀ p ∈ (step pt { tAvail := T } (.thermostatParams (b0 :: start :: count :: r))).1.thermostats, ∀ e ∈ p.2,
       e.offset = p.1 * slotsPer start.toNat count.toNat T
 
-/-- **thermostat_offset_partial**: proved when no block of the response has an undefined hole
-(every block yields as many items as it has slots), for any prior world whose thermostat
-parameters already have correct offsets.  What is missing: blocks with holes (F3). -/
-theorem thermostat_offset_partial (pt : Product) (w : World) (msg : List Byte) (per : Nat)
-    (profile : Option Triple) (blocks : List (Nat × List (Nat × Triple)))
-    (hdec : decodeThermostats msg w.tAvail = some (profile, blocks))
-    (hnoholes : ∀ b ∈ blocks, b.2.length = per)
-    (hw : ∀ p ∈ w.thermostats, ∀ e ∈ p.2, e.offset = p.1 * per) :
-    ∀ p ∈ (step pt w (.thermostatParams msg)).1.thermostats, ∀ e ∈ p.2, e.offset = p.1 * per := by
-  simp only [step]
-  split
-  · exact hw
-  · rw [hdec]
-    exact applyThermostats_offsets blocks _ hw hnoholes
+/-- **thermostat_offset_partial**: proved when no block of the response has an undefined hole —
+every listed block yields as many items as the response has slots per thermostat,
+`slotsPer start count T` (`block_items_le`: never more) — for any prior world whose thermostat
+parameters already have offsets `t × slotsPer start count T`.  What is missing: blocks with holes (F3). -/
+theorem thermostat_offset_partial (pt : Product) (w : World) (b0 start count : Byte) (r : List Byte)
+    (profile : Option P2.Triple) (blocks : P2.Blocks) (rest : List Byte)
+    (hdec : P2.decodeThermo (some w.tAvail) (b0 :: start :: count :: r) = .ok (.val profile blocks, rest))
+    (hnoholes : ∀ b ∈ blocks, b.2.length = slotsPer start.toNat count.toNat w.tAvail)
+    (hw : ∀ p ∈ w.thermostats, ∀ e ∈ p.2, e.offset = p.1 * slotsPer start.toNat count.toNat w.tAvail) :
+    ∀ p ∈ (step pt w (.thermostatParams (b0 :: start :: count :: r))).1.thermostats, ∀ e ∈ p.2,
+      e.offset = p.1 * slotsPer start.toNat count.toNat w.tAvail := by
+  simp only [step, hdec]
+  exact applyThermostats_offsets blocks _ hw hnoholes
+
+/-- payload without holes, built from the table's own slot widths: two thermostats, positions 0 and 1 -/
+def noHolesWitness : List Byte :=
+  let w (k : Nat) : Nat := 3 * ((Gen.thermostat[k]?.map (·.size)).getD 1)
+  [1, 0, 5] ++ List.replicate (w 0) 1 ++ List.replicate (w 1) 1 ++ List.replicate (w 0) 2 ++ List.replicate (w 1) 2
+
+/-- non-vacuity of `thermostat_offset_partial`: the hypotheses are met by a concrete response (two
+thermostats, two parameters each, none undefined) and both thermostats get parameters -/
+example :
+    (match P2.decodeThermo (some 2) (0 :: 0 :: 5 :: noHolesWitness) with
+      | .ok (.val _ blocks, _) => blocks.length == 2 && blocks.all (fun b => b.2.length == slotsPer 0 5 2)
+      | _ => false) = true ∧
+    ∃ p ∈ (step .P { tAvail := 2 } (.thermostatParams (0 :: 0 :: 5 :: noHolesWitness))).1.thermostats,
+      p.1 = 1 ∧ ∃ e ∈ p.2, e.offset = 2 := by
+  refine ⟨by decide +kernel, by decide +kernel⟩
 
 /-- payload of the F3 witness, built from the table's own slot widths: two thermostats, positions
 0 and 1 each; position 0 of thermostat 1 is an undefined hole -/
 def f3Witness : List Byte :=
   let w (k : Nat) : Nat := 3 * ((Gen.thermostat[k]?.map (·.size)).getD 1)
-  [0, 0, 5] ++ [1, 0, 5] ++ List.replicate (w 0) 1 ++ List.replicate (w 1) 1 ++
+  [1, 0, 5] ++ List.replicate (w 0) 1 ++ List.replicate (w 1) 1 ++
     List.replicate (w 0) 255 ++ List.replicate (w 1) 1
 
 /-- the witness of F3: thermostat 1's only defined parameter gets offset 1 × 1 instead of 1 × 2,
 so its write goes one slot too low -/
 theorem thermostat_offset_full_false : ¬ thermostat_offset_full := by
   intro h
-  have hw : ∃ p ∈ (step .P { tAvail := 2 } (.thermostatParams f3Witness)).1.thermostats,
+  have hw : ∃ p ∈ (step .P { tAvail := 2 } (.thermostatParams (0 :: 0 :: 5 :: f3Witness))).1.thermostats,
       ∃ e ∈ p.2, e.offset ≠ p.1 * slotsPer 0 5 2 := by decide +kernel
   obtain ⟨p, hp, e, he, hne⟩ := hw
-  exact hne (h .P 2 f3Witness 0 5 (by decide +kernel) (by decide +kernel) p hp e he)
+  exact hne (h .P 2 0 0 5 f3Witness p hp e he)
+
+/-! ### addressing of an existing thermostat parameter is stable over histories (create, then partial update) -/
+
+theorem lookupDev_mem {l : List (Nat × DS)} {i : Nat} {ds : DS} (h : lookupDev l i = some ds) : (i, ds) ∈ l := by
+  unfold lookupDev at h
+  simp only [Option.map_eq_some_iff] at h
+  obtain ⟨p, hp, rfl⟩ := h
+  have hpi : p.1 = i := by simpa using List.find?_some hp
+  have := List.mem_of_find?_eq_some hp
+  rw [← hpi]; exact this
+
+
+
+/-- what a thermostat's dataset satisfies in a reachable world -/
+def GoodT (pt : Product) (t : Nat) (ds : DS) : Prop := ∀ x ∈ ds, EntryOK pt x ∧ OnThermostat t x
+
+theorem thermostat_class (pt : Product) (t n : Nat) {old : DS} (hgood : GoodT pt t old)
+    (d : Gen.Desc) (pos : Nat) (tr' : P2.Triple) (hd : Gen.thermostat[pos]? = some d)
+    (e0 : Entry) (hf : find old d.name = some e0) : sameClass e0 (mkThermostat t n d pos tr') = true := by
+  obtain ⟨hm0, hn0⟩ := find_some hf
+  obtain ⟨⟨d0, hd0, hdn0, hsw0, _⟩, hk0, _⟩ := hgood e0 hm0
+  rw [hk0] at hd0
+  have hd' : (tableOf pt .thermostat)[pos]? = some d := hd
+  have hidx : e0.index = pos := name_index_bijection pt .thermostat hd0 hd' (by rw [hdn0, hn0])
+  rw [hidx, hd'] at hd0
+  cases hd0
+  simp [sameClass, mkThermostat, newEntry, hk0, hsw0]
+
+theorem thermostatBlock_stable (pt : Product) (t : Nat) (items : P2.Params) (ds : DS) (hgood : GoodT pt t ds)
+    (e : Entry) (hf : find ds e.name = some e) :
+    GoodT pt t (thermostatBlock t items ds) ∧ ∃ y, find (thermostatBlock t items ds) e.name = some { e with triple := y } := by
+  constructor
+  · exact applyItems_inv (P := fun x => EntryOK pt x ∧ OnThermostat t x) (fun e t h => h)
+      (fun d pos t' hd => ⟨entryOK_new (pt := pt) (k := .thermostat) (tr t') t (t * items.length) hd, rfl, rfl⟩)
+      hgood items ds hgood
+  · exact applyItems_stable (fun _ _ _ => rfl)
+      (fun d pos tr' hd e0 hf0 => thermostat_class pt t items.length hgood d pos tr' hd e0 hf0) e hf items ds ⟨e.triple, hf⟩
+
+theorem applyBlocks_thermostat_stable (pt : Product) (t : Nat) (e : Entry) :
+    ∀ (blocks : P2.Blocks) (devs : List (Nat × DS)),
+      (∃ ds y, lookupDev devs t = some ds ∧ GoodT pt t ds ∧ find ds e.name = some { e with triple := y }) →
+      ∃ ds y, lookupDev (applyBlocks thermostatBlock devs blocks) t = some ds ∧ GoodT pt t ds ∧
+        find ds e.name = some { e with triple := y } := by
+  intro blocks
+  induction blocks with
+  | nil => intro devs h; exact h
+  | cons b rest ih =>
+    intro devs ⟨ds, y, hl, hg, hf⟩
+    obtain ⟨i, items⟩ := b
+    unfold applyBlocks
+    apply ih
+    by_cases hi : i = t
+    · subst hi
+      rw [lookupDev_updDev_self, hl]
+      simp only [Option.getD_some]
+      obtain ⟨hg', y', hf'⟩ := thermostatBlock_stable pt i items ds hg { e with triple := y } hf
+      exact ⟨_, y', rfl, hg', hf'⟩
+    · rw [lookupDev_updDev_other _ _ (fun h => hi h.symm)]
+      exact ⟨ds, y, hl, hg, hf⟩
+
+/-- **addressing_stable_thermostat**: in any reachable world, NO event — in particular no later
+thermostat-parameters response, narrower, with holes, or with other bounds — changes the index,
+offset, owner or width of a thermostat parameter that exists: only its triple may change.  So a
+parameter created by a full response and updated by a partial one is still written to the slot it
+was created for (what seeded change C07-m2 breaks). -/
+theorem addressing_stable_thermostat (pt : Product) (w : World) (hw : WorldOK pt w) (ev : Event)
+    (t : Nat) (ds : DS) (e : Entry) (hl : lookupDev w.thermostats t = some ds) (hf : find ds e.name = some e) :
+    ∃ ds' y, lookupDev (step pt w ev).1.thermostats t = some ds' ∧ find ds' e.name = some { e with triple := y } := by
+  have hgood : GoodT pt t ds := hw.thr _ (lookupDev_mem hl)
+  have hsame : ∃ ds' y, lookupDev w.thermostats t = some ds' ∧ find ds' e.name = some { e with triple := y } :=
+    ⟨ds, e.triple, hl, hf⟩
+  cases ev with
+  | ecomaxParams msg => simp only [step]; split <;> exact hsame
+  | mixerParams msg => simp only [step]; split <;> exact hsame
+  | thermostatsAvailable n => exact hsame
+  | schedules msg => simp only [step]; split <;> exact hsame
+  | state on => exact hsame
+  | thermostatParams msg =>
+    simp only [step]
+    split
+    · exact hsame
+    · exact hsame
+    · next profile blocks _ _ =>
+      obtain ⟨ds', y, h1, _, h3⟩ := applyBlocks_thermostat_stable pt t e blocks w.thermostats ⟨ds, e.triple, hl, hgood, hf⟩
+      exact ⟨ds', y, h1, h3⟩
+  | set dev name v =>
+    simp only [step]
+    split
+    · exact hsame
+    · next ds0 hds0 =>
+      split
+      · exact hsame
+      · next e1 hf1 =>
+        cases dev with
+        | ecomax => exact hsame
+        | mixer i => exact hsame
+        | thermostat i =>
+          simp only [World.ds] at hds0
+          by_cases hi : i = t
+          · subst hi
+            rw [hl] at hds0
+            simp only [Option.some.injEq] at hds0
+            subst hds0
+            refine ⟨setEntry ds { e1 with triple := { e1.triple with value := v } }, ?_⟩
+            have hlook : lookupDev (w.setDs (.thermostat i) (setEntry ds { e1 with triple := { e1.triple with value := v } })).thermostats i =
+                some (setEntry ds { e1 with triple := { e1.triple with value := v } }) := by
+              simp only [World.setDs, lookupDev]
+              have := find?_updMap w.thermostats i i (fun _ => setEntry ds { e1 with triple := { e1.triple with value := v } })
+              rw [this]
+              simp only [lookupDev, Option.map_eq_some_iff] at hl
+              obtain ⟨p, hp, _⟩ := hl
+              have hpi : p.1 = i := by simpa using List.find?_some (p := fun (p : Nat × DS) => p.1 == i) hp
+              simp [hp, hpi]
+            by_cases hn : name = e.name
+            · subst hn
+              rw [hf] at hf1
+              cases hf1
+              exact ⟨_, hlook, find_setEntry_self ds _⟩
+            · refine ⟨e.triple, hlook, ?_⟩
+              rw [find_setEntry_ne _ _ (by
+                have : e1.name = name := (find_some hf1).2
+                simpa [this] using hn)]
+              exact hf
+          · refine ⟨ds, e.triple, ?_, hf⟩
+            simp only [World.setDs, lookupDev]
+            rw [find?_updMap w.thermostats i t (fun _ => setEntry ds0 { e1 with triple := { e1.triple with value := v } })]
+            simp only [lookupDev, Option.map_eq_some_iff] at hl
+            obtain ⟨p, hp, hp2⟩ := hl
+            have hpt : p.1 = t := by simpa using List.find?_some (p := fun (p : Nat × DS) => p.1 == t) hp
+            have : ¬ p.1 = i := by rw [hpt]; exact fun h => hi h.symm
+            simp [hp, this, hp2]
+
+/-! ### payload bytes -> decoded list -> dataset -> request, end to end
+
+A well-formed parameters payload is one produced by C05's encoders (`P2.encodeEcomax`,
+`encodeMixer`, `encodeThermo` — the wire layout specification, `wfX m = true`).  C05's round
+trips (`C05.rt_params_*`) turn the bytes into the value list, the read-slot theorems above put the
+values into the dataset, and `set` on the resulting named parameter produces the request that
+addresses the slot the value was read from. -/
+
+theorem mem_valRun : ∀ (slots : List P2.Slot) (idx k : Nat) (t : P2.Triple),
+    slots[k]? = some (some t) → (idx + k, t) ∈ P2.valRun idx slots := by
+  intro slots
+  induction slots with
+  | nil => intro idx k t h; simp at h
+  | cons s rest ih =>
+    intro idx k t h
+    cases k with
+    | zero =>
+      simp only [List.getElem?_cons_zero, Option.some.injEq] at h
+      subst h
+      simp [P2.valRun]
+    | succ k =>
+      simp only [List.getElem?_cons_succ] at h
+      have := ih (idx + 1) k t h
+      have e : idx + 1 + k = idx + (k + 1) := by omega
+      rw [e] at this
+      cases s <;> simp [P2.valRun, this]
+
+theorem mem_valBlocks (start : Nat) : ∀ (blocks : List (List P2.Slot)) (t0 j : Nat) (b : List P2.Slot),
+    blocks[j]? = some b → P2.valRun start b ≠ [] → (t0 + j, P2.valRun start b) ∈ P2.valBlocks start t0 blocks := by
+  intro blocks
+  induction blocks with
+  | nil => intro t0 j b h; simp at h
+  | cons b0 rest ih =>
+    intro t0 j b h hne
+    cases j with
+    | zero =>
+      simp only [List.getElem?_cons_zero, Option.some.injEq] at h
+      subst h
+      have : (P2.valRun start b0).isEmpty = false := by
+        cases hv : P2.valRun start b0 with
+        | nil => exact absurd hv hne
+        | cons _ _ => rfl
+      simp [P2.valBlocks, this]
+    | succ j =>
+      simp only [List.getElem?_cons_succ] at h
+      have := ih (t0 + 1) j b h hne
+      have e : t0 + 1 + j = t0 + (j + 1) := by omega
+      rw [e] at this
+      unfold P2.valBlocks
+      split
+      · exact this
+      · exact List.mem_cons_of_mem _ this
+
+/-- every table is shorter than a byte can index -/
+theorem tables_short (pt : Product) (k : TKind) : (tableOf pt k).length < 256 := by
+  cases pt <;> cases k <;> simp only [tableOf] <;> decide +kernel
+
+theorem run_two (pt : Product) (w : World) (e1 e2 : Event) :
+    (run pt w [e1, e2]).2 = (step pt w e1).2 ++ (step pt (step pt w e1).1 e2).2 := by
+  simp [run]
+
+/-- an accepted `set` on a held parameter: the request of the parameter with the new value -/
+theorem step_set_out (pt : Product) (w : World) (dev : Dev) (name : String) (v : Nat) (ds : DS) (e : Entry)
+    (hds : w.ds dev = some ds) (hf : find ds name = some e) :
+    (step pt w (.set dev name v)).2 =
+      [match requestOf (w.setDs dev (setEntry ds { e with triple := { e.triple with value := v } }))
+          { e with triple := { e.triple with value := v } } with
+        | some r => .req r | none => .reqError] := by
+  simp only [step, hds, hf]
+  rfl
+
+/-- **payload_to_request (ecoMAX)**: bytes `encodeEcomax m` arrive (any trailing bytes) in any
+reachable world; slot `k` of the payload is the defined triple `t` and position `start + k` has
+description `d`.  Then `set` of raw value `v` on the parameter named `d.name` queues the request
+`SetEcomaxParameter [start + k, v]`. -/
+theorem payload_to_request_ecomax (pt : Product) (w : World) (hw : WorldOK pt w) (m : P2.EcomaxMsg)
+    (hm : P2.wfEcomax m = true) (rest : List Byte) (k : Nat) (t : P2.Triple)
+    (hk : m.slots[k]? = some (some t)) (d : Gen.Desc)
+    (hd : (tableOf pt .ecomax)[m.start.toNat + k]? = some d) (v : Nat) (hv : v < 256) :
+    (run pt w [.ecomaxParams (P2.encodeEcomax m ++ rest), .set .ecomax d.name v]).2 =
+      [.req ⟨.setEcomax, [m.start.toNat + k, v]⟩] := by
+  have hdec := C05.rt_params_ecomax m rest hm
+  obtain ⟨e, hfind, hidx, _, hkind, _⟩ := read_slot_ecomax pt w hw _ _ _ hdec _ t
+    (mem_valRun m.slots m.start.toNat k t hk) d hd
+  have hlt : m.start.toNat + k < 256 := by
+    have := (List.getElem?_eq_some_iff.mp hd).1
+    have := tables_short pt .ecomax
+    omega
+  rw [run_two, step_set_out pt _ .ecomax d.name v _ e rfl hfind]
+  have h1 : (step pt w (.ecomaxParams (P2.encodeEcomax m ++ rest))).2 = [] := by simp only [step, hdec]
+  rw [h1]
+  simp only [requestOf, hkind, hidx, hlt, hv, and_self, if_true, List.nil_append]
+
+/-- **payload_to_request (mixer)**: slot `k` of mixer block `j` of `encodeMixer m` is the defined
+triple `t`, position `start + k` has description `d`: `set` on mixer `j`'s parameter `d.name`
+queues `SetMixerParameter [j, start + k, v]`. -/
+theorem payload_to_request_mixer (pt : Product) (w : World) (hw : WorldOK pt w) (m : P2.MixerMsg)
+    (hm : P2.wfMixer m = true) (rest : List Byte) (j : Nat) (b : List P2.Slot) (hj : m.blocks[j]? = some b)
+    (k : Nat) (t : P2.Triple) (hk : b[k]? = some (some t)) (d : Gen.Desc)
+    (hd : (tableOf pt .mixer)[m.start.toNat + k]? = some d) (v : Nat) (hv : v < 256) :
+    (run pt w [.mixerParams (P2.encodeMixer m ++ rest), .set (.mixer j) d.name v]).2 =
+      [.req ⟨.setMixer, [j, m.start.toNat + k, v]⟩] := by
+  have hdec := C05.rt_params_mixer m rest hm
+  have hmem := mem_valRun b m.start.toNat k t hk
+  have hblock := mem_valBlocks m.start.toNat m.blocks 0 j b hj (by intro h; rw [h] at hmem; cases hmem)
+  rw [Nat.zero_add] at hblock
+  obtain ⟨ds, e, hlook, hfind, hidx, _, hkind, hdev, _⟩ := read_slot_mixer pt w hw _ _ _ hdec j _ hblock _ t hmem d hd
+  have hlt : m.start.toNat + k < 256 := by
+    have := (List.getElem?_eq_some_iff.mp hd).1
+    have := tables_short pt .mixer
+    omega
+  have hjlt : j < 256 := by
+    simp only [P2.wfMixer, Bool.and_eq_true, decide_eq_true_eq] at hm
+    have := (List.getElem?_eq_some_iff.mp hj).1
+    omega
+  have h1 : (step pt w (.mixerParams (P2.encodeMixer m ++ rest))).2 = [] := by simp only [step, hdec]
+  rw [run_two, step_set_out pt _ (.mixer j) d.name v ds e hlook hfind, h1]
+  simp only [requestOf, hkind, hidx, hdev, hlt, hv, hjlt, and_self, if_true, List.nil_append]
+
+theorem valRun_length_noholes : ∀ (slots : List P2.Slot) (idx : Nat), (∀ s ∈ slots, s ≠ none) →
+    (P2.valRun idx slots).length = slots.length := by
+  intro slots
+  induction slots with
+  | nil => intro idx _; rfl
+  | cons s rest ih =>
+    intro idx h
+    cases s with
+    | none => exact absurd rfl (h none (by simp))
+    | some t => simp [P2.valRun, ih (idx + 1) (fun s hs => h s (by simp [hs]))]
+
+/-- **payload_to_request (thermostat)**: slot `k` of thermostat block `j` of `encodeThermo m` (as
+many thermostats available as the payload has blocks) is the defined triple `t`, position
+`start + k` has description `d`; thermostat `j`'s parameters are created by this response and its
+block has no undefined hole (the F3 proviso).  Then `set` on thermostat `j`'s parameter `d.name`
+queues `SetThermostatParameter [start + k + 1 + j × per] ++ LE(v, size)`, `per` = slots per
+thermostat. -/
+theorem payload_to_request_thermostat (pt : Product) (w : World) (hw : WorldOK pt w) (m : P2.ThermoMsg)
+    (hm : P2.wfThermo m = true) (rest : List Byte) (hT : w.tAvail = m.blocks.length)
+    (j : Nat) (b : List P2.Slot) (hj : m.blocks[j]? = some b)
+    (hnew : lookupDev w.thermostats j = none) (hnoholes : ∀ s ∈ b, s ≠ none)
+    (k : Nat) (t : P2.Triple) (hk : b[k]? = some (some t)) (d : Gen.Desc)
+    (hd : Gen.thermostat[m.start.toNat + k]? = some d) (v : Nat) (hv : v < 256 ^ d.size)
+    (hslot : m.start.toNat + k + 1 + j * slotsPer m.start.toNat m.count.toNat m.blocks.length < 256) :
+    (run pt w [.thermostatParams (P2.encodeThermo m ++ rest), .set (.thermostat j) d.name v]).2 =
+      [.req ⟨.setThermostat,
+        (m.start.toNat + k + 1 + j * slotsPer m.start.toNat m.count.toNat m.blocks.length) :: leBytes v d.size⟩] := by
+  have hdec := C05.rt_params_thermostat m rest hm
+  rw [← hT] at hdec
+  simp only [P2.valThermo] at hdec
+  have hmem := mem_valRun b m.start.toNat k t hk
+  have hblock := mem_valBlocks m.start.toNat m.blocks 0 j b hj (by intro h; rw [h] at hmem; cases hmem)
+  rw [Nat.zero_add] at hblock
+  obtain ⟨ds, e, hlook, hfind, hidx, _, hkind, hdev, _, hoff⟩ :=
+    read_slot_thermostat pt w hw _ _ _ _ hdec j _ hblock _ t hmem d hd
+  -- the block has exactly `per` defined items
+  have hblen : b.length = slotsPer m.start.toNat m.count.toNat m.blocks.length := by
+    simp only [P2.wfThermo, Bool.and_eq_true, decide_eq_true_eq, List.all_eq_true] at hm
+    exact (hm.2 b (List.mem_of_getElem? hj)).1
+  have hoffset : e.offset = j * slotsPer m.start.toNat m.count.toNat m.blocks.length := by
+    rcases hoff with h | ⟨e0, he0, _⟩
+    · rw [h, valRun_length_noholes b _ hnoholes, hblen]
+    · rw [hnew] at he0; cases he0
+  -- the width recorded by the parameter is the description's
+  have hw1 := step_ok hw (.thermostatParams (P2.encodeThermo m ++ rest))
+  have hsize : e.size = d.size := by
+    obtain ⟨⟨d', hd', _, _, hs'⟩, hon⟩ := hw1.thr _ (lookupDev_mem hlook) e (find_some hfind).1
+    rw [hon.1, hidx] at hd'
+    simp only [tableOf] at hd'
+    rw [hd] at hd'
+    cases hd'
+    exact hs'.symm
+  have h1 : (step pt w (.thermostatParams (P2.encodeThermo m ++ rest))).2 = [] := by simp only [step, hdec]
+  rw [run_two, step_set_out pt _ (.thermostat j) d.name v ds e hlook hfind, h1]
+  simp only [requestOf, hkind, hidx, hoffset, hsize, hslot, hv, and_self, if_true, List.nil_append]
+
+/-! ### payload_to_request for schedules -/
+
+theorem schedParams_known (entries : List P2.SchedEntry)
+    (h : ∀ en ∈ entries, en.index.toNat < Gen.schedules.length) :
+    allKnown Gen.scheduleParams (entries.flatMap P2.schedParams) = true := by
+  simp only [allKnown, List.all_eq_true, List.mem_flatMap, decide_eq_true_eq]
+  rintro it ⟨en, hen, hit⟩
+  have := h en hen
+  have hl := schedule_table_length
+  simp only [P2.schedParams, List.mem_cons] at hit
+  rcases hit with rfl | hit
+  · simp; omega
+  · cases hp : en.param with
+    | none => simp [hp] at hit
+    | some t => simp only [hp, List.mem_singleton] at hit; subst hit; simp; omega
+
+theorem schedParams_distinct (entries : List P2.SchedEntry)
+    (h : entries.Pairwise (fun a b => a.index.toNat ≠ b.index.toNat)) :
+    (entries.flatMap P2.schedParams).Pairwise (fun a b => a.1 ≠ b.1) := by
+  rw [List.pairwise_flatMap]
+  constructor
+  · intro en _
+    cases hp : en.param <;> simp [P2.schedParams, hp]
+  · apply List.Pairwise.imp _ h
+    intro a b hab x hx y hy
+    have hx' : x.1 = a.index.toNat * 2 ∨ x.1 = a.index.toNat * 2 + 1 := by
+      simp only [P2.schedParams, List.mem_cons] at hx
+      rcases hx with rfl | hx
+      · left; rfl
+      · right; cases hp : a.param with
+        | none => simp [hp] at hx
+        | some t => simp only [hp, List.mem_singleton] at hx; subst hx; rfl
+    have hy' : y.1 = b.index.toNat * 2 ∨ y.1 = b.index.toNat * 2 + 1 := by
+      simp only [P2.schedParams, List.mem_cons] at hy
+      rcases hy with rfl | hy
+      · left; rfl
+      · right; cases hp : b.param with
+        | none => simp [hp] at hy
+        | some t => simp only [hp, List.mem_singleton] at hy; subst hy; rfl
+    omega
+
+/-- the `schedules` dictionary after a response whose entries name distinct known schedules holds
+each entry's bitmap under that schedule's name -/
+theorem schedules_lookup :
+    ∀ (ss : List (Nat × List (List Bool))) (acc : List (String × List (List Bool))),
+      ss.Pairwise (fun a b => a.1 ≠ b.1) → (∀ s ∈ ss, s.1 < Gen.schedules.length) →
+      ∀ s ∈ ss, ∀ n, scheduleName s.1 = some n →
+      (ss.foldl (fun acc s =>
+          match scheduleName s.1 with
+          | some n => (n, s.2) :: acc.filter (fun p => !(p.1 == n))
+          | none => acc) acc).find? (fun p => p.1 == n) = some (n, s.2) := by
+  intro ss
+  induction ss with
+  | nil => intro acc _ _ s hs; cases hs
+  | cons s0 rest ih =>
+    intro acc hp hk s hs n hn
+    obtain ⟨hhead, htail⟩ := List.pairwise_cons.mp hp
+    simp only [List.foldl_cons]
+    rcases List.mem_cons.mp hs with rfl | hs'
+    · -- later entries name other schedules
+      simp only [hn]
+      have hother : ∀ (rest' : List (Nat × List (List Bool))) (acc' : List (String × List (List Bool))),
+          (∀ b ∈ rest', s.1 ≠ b.1) → (∀ b ∈ rest', b.1 < Gen.schedules.length) →
+          (rest'.foldl (fun acc s =>
+            match scheduleName s.1 with
+            | some n => (n, s.2) :: acc.filter (fun p => !(p.1 == n))
+            | none => acc) acc').find? (fun p => p.1 == n) = acc'.find? (fun p => p.1 == n) := by
+        intro rest'
+        induction rest' with
+        | nil => intro acc' _ _; rfl
+        | cons b r' ih' =>
+          intro acc' hne hkn
+          simp only [List.foldl_cons]
+          rw [ih' _ (fun b' hb' => hne b' (by simp [hb'])) (fun b' hb' => hkn b' (by simp [hb']))]
+          have hbk := hkn b (by simp)
+          have hbn : scheduleName b.1 = some Gen.schedules[b.1] := by
+            simp [scheduleName, List.getElem?_eq_getElem hbk]
+          simp only [hbn]
+          have hdiff : Gen.schedules[b.1] ≠ n := by
+            intro heq
+            have hsn : Gen.schedules[s.1]? = some n := hn
+            have hsk := (List.getElem?_eq_some_iff.mp hsn).1
+            have : Gen.schedules[b.1] = Gen.schedules[s.1] := by
+              rw [heq]; exact ((List.getElem?_eq_some_iff.mp hsn).2).symm
+            exact hne b (by simp) ((List.getElem_inj (h₀ := hbk) (h₁ := hsk) names_unique_schedules).mp this).symm
+          rw [List.find?_cons_of_neg (by simpa using hdiff), List.find?_filter]
+          congr 1
+          funext p
+          by_cases hpn : p.1 = n
+          · subst hpn; simp; exact fun h' => hdiff h'.symm
+          · simp [hpn]
+      rw [hother rest _ hhead (fun b hb => hk b (by simp [hb]))]
+      simp
+    · have hs0 := hk s0 (by simp)
+      exact ih _ htail (fun b hb => hk b (by simp [hb])) s hs' n hn
+
+/-- **payload_to_request (schedule)**: bytes `encodeSched m` arrive; the entries name distinct
+known schedules; entry `en` (schedule `s`, switch value `sw`, defined parameter triple, bitmap
+`days`).  Then `set` of raw value `v` on `<schedule s>_schedule_parameter` queues the set-schedule
+request of schedule `s`: `[1, s, sw, v] ++ bitmap bytes` — the switch value and the bitmap are the
+ones read from that entry. -/
+theorem payload_to_request_schedule (pt : Product) (w : World) (hw : WorldOK pt w) (m : P2.SchedMsg)
+    (hm : P2.wfSched m = true) (rest : List Byte)
+    (hknown : ∀ en ∈ m.entries, en.index.toNat < Gen.schedules.length)
+    (hdist : m.entries.Pairwise (fun a b => a.index.toNat ≠ b.index.toNat))
+    (en : P2.SchedEntry) (hen : en ∈ m.entries) (t : P2.Triple) (hp : en.param = some t)
+    (sname : String) (hs : Gen.schedules[en.index.toNat]? = some sname) (v : Nat) (hv : v < 256) :
+    (run pt w [.schedules (P2.encodeSched m ++ rest), .set .ecomax (sname ++ suffixParameter) v]).2 =
+      [.req ⟨.setSchedule, [1, en.index.toNat, en.switch.toNat, v] ++
+        (en.days.flatMap (P2.packBits 6)).map (·.toNat)⟩] := by
+  have hdec := C05.rt_schedules m rest hm
+  simp only [P2.valSched] at hdec
+  have hk := schedParams_known m.entries hknown
+  have hd := schedParams_distinct m.entries hdist
+  have hslt : en.index.toNat < Gen.schedules.length := hknown en hen
+  have hlen := schedule_table_length
+  -- the two descriptions of schedule s
+  have h0lt : en.index.toNat * 2 < Gen.scheduleParams.length := by omega
+  have h1lt : en.index.toNat * 2 + 1 < Gen.scheduleParams.length := by omega
+  have hd0 : Gen.scheduleParams[en.index.toNat * 2]? = some Gen.scheduleParams[en.index.toNat * 2] :=
+    List.getElem?_eq_getElem h0lt
+  have hd1 : Gen.scheduleParams[en.index.toNat * 2 + 1]? = some Gen.scheduleParams[en.index.toNat * 2 + 1] :=
+    List.getElem?_eq_getElem h1lt
+  have hn0 : (Gen.scheduleParams[en.index.toNat * 2]).name = sname ++ suffixSwitch := by
+    have := schedule_names _ h0lt
+    rw [hd0, show en.index.toNat * 2 / 2 = en.index.toNat by omega, hs,
+      show en.index.toNat * 2 % 2 = 0 by omega] at this
+    simpa using this
+  have hn1 : (Gen.scheduleParams[en.index.toNat * 2 + 1]).name = sname ++ suffixParameter := by
+    have := schedule_names _ h1lt
+    rw [hd1, show (en.index.toNat * 2 + 1) / 2 = en.index.toNat by omega, hs,
+      show (en.index.toNat * 2 + 1) % 2 = 1 by omega] at this
+    simpa using this
+  have hne : sname ++ suffixParameter ≠ sname ++ suffixSwitch := by
+    intro heq
+    have := name_index_bijection pt .schedule (i := en.index.toNat * 2 + 1) (j := en.index.toNat * 2) hd1 hd0
+      (by rw [hn0, hn1, heq])
+    omega
+  -- both parameters are in the dataset after the response
+  have hmem0 : (en.index.toNat * 2, ((en.switch.toNat, 0, 1) : P2.Triple)) ∈ m.entries.flatMap P2.schedParams :=
+    List.mem_flatMap.mpr ⟨en, hen, by simp [P2.schedParams]⟩
+  have hmem1 : (en.index.toNat * 2 + 1, t) ∈ m.entries.flatMap P2.schedParams :=
+    List.mem_flatMap.mpr ⟨en, hen, by simp [P2.schedParams, hp]⟩
+  obtain ⟨es, hfs, _, hts, _, _⟩ := read_slot_schedule pt w hw _ _ _ rest hdec hk hd _ _ hmem0 _ hd0
+  obtain ⟨ep, hfp, hip, _, hkp, hnp⟩ := read_slot_schedule pt w hw _ _ _ rest hdec hk hd _ _ hmem1 _ hd1
+  rw [hn0] at hfs
+  rw [hn1] at hfp hnp
+  -- the schedules dictionary holds this entry's bitmap
+  have hss : (m.entries.map fun e => (e.index.toNat, e.days)).all (fun s => decide (s.1 < Gen.schedules.length)) = true := by
+    simp only [List.all_eq_true, List.mem_map, decide_eq_true_eq]
+    rintro s ⟨e, he, rfl⟩; exact hknown e he
+  have hsched : (step pt w (.schedules (P2.encodeSched m ++ rest))).1.schedules.find? (fun p => p.1 == sname) =
+      some (sname, en.days) := by
+    simp only [step, hdec, hss, if_true]
+    exact schedules_lookup _ [] (by rw [List.pairwise_map]; exact hdist)
+      (by intro s hs'; simp only [List.mem_map] at hs'; obtain ⟨e, he, rfl⟩ := hs'; exact hknown e he)
+      (en.index.toNat, en.days) (List.mem_map.mpr ⟨en, hen, rfl⟩) sname hs
+  have h1 : (step pt w (.schedules (P2.encodeSched m ++ rest))).2 = [] := by simp only [step, hdec]
+  rw [run_two, step_set_out pt _ .ecomax (sname ++ suffixParameter) v _ ep rfl hfp, h1]
+  generalize (step pt w (.schedules (P2.encodeSched m ++ rest))).1 = w1 at *
+  have hidx2 : ep.index / 2 = en.index.toNat := by rw [hip]; omega
+  have hsw : es.triple.value = en.switch.toNat := by rw [hts]; rfl
+  have hswlt : en.switch.toNat < 256 := en.switch.toNat_lt
+  generalize he' : ({ ep with triple := { ep.triple with value := v } } : Entry) = e'
+  have hk' : e'.kind = .schedule := by rw [← he']; exact hkp
+  have hi' : e'.index / 2 = en.index.toNat := by rw [← he']; exact hidx2
+  have hv' : e'.triple.value = v := by rw [← he']
+  have hn' : e'.name = sname ++ suffixParameter := by rw [← he']; exact hnp
+  have hfs' : find (setEntry w1.ecomax e') (sname ++ suffixSwitch) = some es := by
+    rw [find_setEntry_ne _ _ (by rw [hn']; exact hne)]; exact hfs
+  have hfp' : find (setEntry w1.ecomax e') (sname ++ suffixParameter) = some e' := by
+    rw [← hn']; exact find_setEntry_self _ _
+  have hsi : scheduleIndex e'.name = some en.index.toNat := by
+    rw [hn', ← hn1, scheduleIndex_of_row hd1]; congr 1; omega
+  simp only [requestOf, hk', hsi, hs, World.setDs, hfs', hfp', hsched, hsw, hv', hswlt, hv, and_self, if_true,
+    List.nil_append]
+
+example : P2.wfSched ⟨0, 0, [⟨16, 1, some (5, 0, 30), List.replicate 7 (List.replicate 48 true)⟩]⟩ = true := by decide
+example : P2.wfEcomax ⟨0, 42, [some (1, 0, 9), none, some (7, 1, 9)]⟩ = true := by decide
+example : P2.wfMixer ⟨0, 0, 2, [[some (1, 0, 9), none], [none, some (2, 0, 9)]]⟩ = true := by decide
+example : P2.wfThermo ⟨0, 0, 5, some (9, 0, 9), [[some (1, 0, 1), some (2, 0, 300)], [some (2, 0, 2), some (300, 0, 65535)]]⟩ = true := by decide
 
 end PlumVerif.C07
